@@ -1,4 +1,5 @@
 import GrinVerif.Lemmas.DesegWant
+import GrinVerif.Lemmas.DesegServe
 /-! # C16 — the desegmenter as a whole machine (`chain/src/txhashset/desegmenter.rs`)
 
 Property theorems about `Model/Deseg.lean` (bitmap phase → `finalize_bitmap` → the three trees;
@@ -232,5 +233,114 @@ theorem honest_sync_completes (No Nk : Nat) (feed : St → List Delivery)
     · exact Nat.le_trans (round_remaining_le No Nk feed hclean s hi) (by rw [h0]; exact Nat.zero_le n)
     · exact Nat.le_of_lt_succ
         (Nat.lt_of_lt_of_le (round_remaining_lt No Nk feed hclean s hi (hserve s hi h0)) hr)
+
+/-! ## the request list for every `max_elements`, and the closed loop ask → answer → apply -/
+
+/-- **After the bitmap phase, with `max_elements ≥ 3`, the request list contains the segment that
+comes next in EACH of the three trees** (unless cached), in every regular state.  (Was an
+assumption checked by the runs only.)  Why it holds although the output / rangeproof loops test
+`last > local` and therefore skip a final segment that adds a single leaf: a tree whose next segment
+is not taken by its own loop contributes nothing to the round-robin part (`wantTree_next`), so the
+list has room when its "ensure" step runs and nothing is ever popped (`ensure_three`). -/
+theorem request_contains_next_segment_of_every_tree (No Nk : Nat) (s : St) (hi : Inv No Nk s)
+    (hbc : s.bitmapCache = true) (max : Nat) (hm : 3 ≤ max) :
+    (∀ k, Pos true s.hO No s.out.leaves (some k) → hasId s.out.cache { height := s.hO, idx := k } = false →
+      (Kind.output, ({ height := s.hO, idx := k } : Ident)) ∈ s.desired max) ∧
+    (∀ k, Pos true s.hR No s.rp.leaves (some k) → hasId s.rp.cache { height := s.hR, idx := k } = false →
+      (Kind.rangeproof, ({ height := s.hR, idx := k } : Ident)) ∈ s.desired max) ∧
+    (∀ k, Pos true s.hK Nk s.ker.leaves (some k) → hasId s.ker.cache { height := s.hK, idx := k } = false →
+      (Kind.kernel, ({ height := s.hK, idx := k } : Ident)) ∈ s.desired max) :=
+  desired_all_next No Nk s hi hbc max hm
+
+theorem request_contains_next_output_segment (No Nk : Nat) (s : St) (hi : Inv No Nk s)
+    (hbc : s.bitmapCache = true) (max : Nat) (hm : 3 ≤ max) (k : Nat)
+    (p : Pos true s.hO No s.out.leaves (some k))
+    (hnc : hasId s.out.cache { height := s.hO, idx := k } = false) :
+    (Kind.output, ({ height := s.hO, idx := k } : Ident)) ∈ s.desired max :=
+  (desired_all_next No Nk s hi hbc max hm).1 k p hnc
+
+theorem request_contains_next_rangeproof_segment (No Nk : Nat) (s : St) (hi : Inv No Nk s)
+    (hbc : s.bitmapCache = true) (max : Nat) (hm : 3 ≤ max) (k : Nat)
+    (p : Pos true s.hR No s.rp.leaves (some k))
+    (hnc : hasId s.rp.cache { height := s.hR, idx := k } = false) :
+    (Kind.rangeproof, ({ height := s.hR, idx := k } : Ident)) ∈ s.desired max :=
+  (desired_all_next No Nk s hi hbc max hm).2.1 k p hnc
+
+/-- the case the loops miss and the "ensure" step saves: 3 outputs at height 1, local MMR of 2
+leaves — the next (final) segment adds one leaf, `last = local`; the list still names it -/
+def exLateOutput : St :=
+  { (St.new 9 1 1 1 (mmr 3) (mmr 3) 1 1) with bitmapCache := true, bm := ⟨mmr 1, [], []⟩, out := ⟨mmr 2, [], []⟩ }
+
+example : exLateOutput.desired 3 =
+    [(Kind.rangeproof, ⟨1, 0⟩), (Kind.kernel, ⟨1, 0⟩), (Kind.output, ⟨1, 1⟩)] := by decide +kernel
+
+/-- **`max_elements ≤ 2`: the request list is exactly what the three "ensure" steps build from the
+empty list** (the quota `max_elements / 3` is 0), in EVERY state after the bitmap phase -/
+theorem small_request_is_ensure_steps (s : St) (hbc : s.bitmapCache = true) (max : Nat) (hm : max ≤ 2) :
+    s.desired max =
+      ensureNext max (ensureNext max (ensureNext max [] .output s.hO (s.nextRequired .output) s.out.cache)
+        .rangeproof s.hR (s.nextRequired .rangeproof) s.rp.cache) .kernel s.hK (s.nextRequired .kernel) s.ker.cache :=
+  desired_small s hbc max hm
+
+/-- … hence, while all three trees wait for a segment that is not cached, `max_elements = 2` never
+asks for the rangeproof segment and `max_elements ≤ 1` asks for the kernel segment only: a caller
+that passes fewer than 3 starves a tree (recorded observation; the node passes 15) -/
+theorem small_request_starves (s : St) (hbc : s.bitmapCache = true) (o r k : Nat)
+    (ho : s.nextRequired .output = some o) (hr : s.nextRequired .rangeproof = some r)
+    (hk : s.nextRequired .kernel = some k)
+    (co : hasId s.out.cache { height := s.hO, idx := o } = false)
+    (cr : hasId s.rp.cache { height := s.hR, idx := r } = false)
+    (ck : hasId s.ker.cache { height := s.hK, idx := k } = false) :
+    s.desired 2 = [(Kind.output, ⟨s.hO, o⟩), (Kind.kernel, ⟨s.hK, k⟩)] ∧
+    s.desired 1 = [(Kind.kernel, ⟨s.hK, k⟩)] ∧ s.desired 0 = [(Kind.kernel, ⟨s.hK, k⟩)] :=
+  desired_small_all s hbc o r k ho hr hk co cr ck
+
+/-- the hypotheses are satisfiable (the state the `probe` run reports: 3 outputs, heights 1) -/
+def exAllWaiting : St :=
+  { (St.new 0 1 1 1 (mmr 3) (mmr 3) 1 1) with bitmapCache := true, bm := ⟨mmr 1, [], []⟩ }
+
+example : exAllWaiting.desired 2 = [(Kind.output, ⟨1, 0⟩), (Kind.kernel, ⟨1, 0⟩)] ∧
+    exAllWaiting.desired 1 = [(Kind.kernel, ⟨1, 0⟩)] ∧
+    exAllWaiting.desired 3 = [(Kind.output, ⟨1, 0⟩), (Kind.rangeproof, ⟨1, 0⟩), (Kind.kernel, ⟨1, 0⟩)] := by
+  decide +kernel
+
+/-- **Serving the request list gives the machine what it needs next** (`Needed`, the hypothesis of
+`apply_makes_progress`): in every regular incomplete state, for `max_elements ≥ 3`, whatever else
+is delivered in whatever order -/
+theorem served_requests_give_needed (No Nk : Nat) (s : St) (hi : Inv No Nk s) (hr : s.remaining ≠ 0)
+    (max : Nat) (hm : 3 ≤ max) (ds : List Delivery) (ha : Answers (s.desired max) ds) :
+    Needed No Nk (s.deliverAll ds) :=
+  served_is_needed No Nk s hi hr max hm ds ha
+
+/-- **The closed loop completes**: a node that in every round asks with
+`next_desired_segments(max_elements)`, `max_elements ≥ 3`, and whose peers answer every identifier of
+that list with a valid segment (plus anything else, in any order, duplicates, refused segments)
+reports completion after at most `remaining` rounds.  No assumption about WHICH segments arrive is
+left: `honest_sync_completes`' hypothesis is discharged by the request list itself. -/
+theorem answered_requests_complete (No Nk : Nat) (max : Nat) (hm : 3 ≤ max) (feed : St → List Delivery)
+    (hclean : ∀ s, ∀ d ∈ feed s, d.kind = .bitmap → d.seg.extra = 0)
+    (hans : ∀ s, Inv No Nk s → Answers (s.desired max) (feed s)) :
+    ∀ (n : Nat) (s : St), Inv No Nk s → s.remaining ≤ n → (rounds feed s n).checkProgress = true :=
+  honest_sync_completes No Nk feed hclean
+    (fun s hi hr => served_is_needed No Nk s hi hr max hm (feed s) (hans s hi))
+
+/-- the honest feed: one valid segment per requested identifier -/
+def honestFeed (max : Nat) (s : St) : List Delivery :=
+  (s.desired max).map fun x => ⟨x.1, ⟨x.2, true, 0, 0⟩⟩
+
+/-- … which satisfies the hypotheses of `answered_requests_complete` for every archive header: the
+shipped request size 15 brings every fresh desegmenter to completion -/
+theorem honest_feed_completes (hB hO hR hK No Nk gOut gKer : Nat) (hb : hB ≤ 61) (ho1 : 1 ≤ hO) (ho : hO ≤ 61)
+    (hr1 : 1 ≤ hR) (hr : hR ≤ 61) (hk1 : 1 ≤ hK) (hk : hK ≤ 61) (hNo : 1 ≤ No) (hNoS : No < 2 ^ 62)
+    (hNk : 2 ≤ Nk) (hNkS : Nk < 2 ^ 62) (hgo : gOut ≤ 1) (hgk : gKer ≤ 1) :
+    ∃ n, (rounds (honestFeed 15) (St.new hB hO hR hK (mmr No) (mmr Nk) gOut gKer) n).checkProgress = true := by
+  refine ⟨_, answered_requests_complete No Nk 15 (by omega) (honestFeed 15) ?_ ?_ _ _
+    (new_inv hB hO hR hK No Nk gOut gKer hb ho1 ho hr1 hr hk1 hk hNo hNoS hNk hNkS hgo hgk) (Nat.le_refl _)⟩
+  · intro s d hd _
+    unfold honestFeed at hd
+    obtain ⟨x, _, hx⟩ := List.mem_map.mp hd
+    rw [← hx]
+  · intro s _ x hx
+    exact ⟨⟨x.1, ⟨x.2, true, 0, 0⟩⟩, List.mem_map.mpr ⟨x, hx, rfl⟩, rfl, rfl, rfl⟩
 
 end GV.Props.C16Deseg
